@@ -22,7 +22,7 @@ ASSUMPTIONS = ['np.linalg.pinv of a square matrix M applied to v = fresh x with 
                'explicitly', 'd/dt |t_i - b_i| = n_i . (w x t_i + v) for a point t_i carried by the spatial twist (w, v)  [oracle]',
                'summary mode for Exp/Log of composed rotations (C01 contracts)']
 EXPLORER_DEFAULTS = {'quick': dict(prove_timeout_ms=30000, branch_timeout_ms=3000, time_budget_s=600, max_paths=30, max_decisions=200),
-                     'thorough': dict(prove_timeout_ms=90000, branch_timeout_ms=5000, time_budget_s=2400, max_paths=100, max_decisions=300)}
+                     'thorough': dict(prove_timeout_ms=90000, branch_timeout_ms=5000, time_budget_s=1200, max_paths=100, max_decisions=300)}
 TOL = '1e-8'
 MASSES = dict(_top_plate_mass=F(7, 2), _bottom_plate_mass=F(9, 2), _act_shaft_mass=F(3, 10), _act_motor_mass=F(4, 5),
               _act_shaft_grav_center=F(1, 4), _act_motor_grav_center=F(1, 5))
